@@ -1,0 +1,13 @@
+//go:build verif
+
+package jsonapi
+
+// Assumed contracts of functions outside this package. They are never
+// verified; every use is listed in the evidence of the run that relies on it.
+
+//@ func bytes.Compare
+//@ flag assumed
+//@ ensures sign: result == -1 || result == 0 || result == 1
+//@ ensures lt: (result < 0) == bytesLt(a, b)
+//@ ensures eq: (result == 0) == bytesEq(a, b)
+//@ ensures gt: (result > 0) == bytesLt(b, a)
